@@ -21,6 +21,7 @@ import (
 	"strconv"
 	"strings"
 	"sync"
+	"sync/atomic"
 	"time"
 
 	"github.com/nelhage/taktician/prove"
@@ -51,6 +52,7 @@ type c06job struct {
 
 	// results
 	l1, l2 string
+	done  int32
 	out   []string
 	stats map[string]int64
 }
@@ -488,16 +490,45 @@ func c06runJobs(c *ctx, jobs []*c06job) {
 		ch <- j
 	}
 	close(ch)
-	for w := 0; w < 12; w++ {
+	const workers = 12
+	var current [workers]atomic.Value // the job a worker is busy with
+	for w := 0; w < workers; w++ {
 		wg.Add(1)
-		go func() {
+		go func(w int) {
 			defer wg.Done()
 			for j := range ch {
+				current[w].Store(j)
 				j.run()
+				atomic.StoreInt32(&j.done, 1)
 			}
-		}()
+			current[w].Store((*c06job)(nil))
+		}(w)
 	}
-	wg.Wait()
+	// A solver that does not come back is a failure too (DFPN has no node limit): after the time
+	// budget the runs still in flight are reported and everything not started is dropped.
+	budget := 150 * time.Second
+	if !c.quick() {
+		budget = 45 * time.Minute
+	}
+	finished := make(chan bool)
+	go func() { wg.Wait(); close(finished) }()
+	select {
+	case <-finished:
+	case <-time.After(budget):
+		var kept []*c06job
+		for _, j := range jobs {
+			if atomic.LoadInt32(&j.done) == 1 {
+				kept = append(kept, j)
+			}
+		}
+		for w := 0; w < workers; w++ {
+			if j, _ := current[w].Load().(*c06job); j != nil && atomic.LoadInt32(&j.done) == 0 {
+				c.printf("ORACLE-FAIL solver-no-result | %s | no result within the time budget of the whole run (%v) | a verdict\n", j.input(), budget)
+			}
+		}
+		c.stat("runs_dropped_after_timeout", int64(len(jobs)-len(kept)))
+		jobs = kept
+	}
 	samples := 0
 	for _, j := range jobs {
 		for _, l := range j.out {
